@@ -1771,6 +1771,43 @@ class FnRewriter:
         return pc + 1
 
     # ------------------------------------------------------------ R7 closure-lift
+    def closure_ordinal(self, spec):
+        """`"closure": N` or `"closure": "CALLEE K"` (the K-th closure literal that is the first argument of a
+        call of CALLEE; robust against closures inserted elsewhere) -> textual ordinal N."""
+        if isinstance(spec, int) or str(spec).isdigit():
+            return int(spec)
+        parts = str(spec).split()
+        if len(parts) != 2 or not parts[1].isdigit():
+            raise Undecided('%s: "closure" must be N or "CALLEE K"' % self.fnkey)
+        want, k = parts[0], int(parts[1])
+        toks = self.sf.toks
+        seen = 0
+        n = 1
+        while True:
+            try:
+                bar_o = self._find_closure(n)[0]
+            except Undecided:
+                raise Undecided('%s: no closure `%s %d` (lost anchor)' % (self.fnkey, want, k))
+            pk = bar_o - 1
+            while pk >= 0 and toks[pk].kind in ('ws', 'comment'):
+                pk -= 1
+            if pk >= 0 and toks[pk].kind == 'ident' and toks[pk].text == 'move':
+                pk -= 1
+                while pk >= 0 and toks[pk].kind in ('ws', 'comment'):
+                    pk -= 1
+            callee = '?'       # `?`: not the first argument of a call
+            if pk >= 0 and toks[pk].kind == 'punct' and toks[pk].text == '(':
+                pk -= 1
+                while pk >= 0 and toks[pk].kind in ('ws', 'comment'):
+                    pk -= 1
+                if pk >= 0 and toks[pk].kind == 'ident':
+                    callee = toks[pk].text
+            if callee == want:
+                seen += 1
+                if seen == k:
+                    return n
+            n += 1
+
     def _find_closure(self, n):
         """Locate the n-th closure literal of this function's body (same textual
         order and the same skipping of dropped macro calls as _emit_range).
@@ -2403,7 +2440,8 @@ def build(unit_dir, repo, canary=False, auto_off=None):
                 # the n-th closure literal of the function becomes a fn
                 if 'sig' not in it or 'key' not in it:
                     raise Undecided('closure item needs "sig" and "key": %r' % it)
-                cs, cbo, ce = FnRewriter(sf, fn_item, fnkey, None, unit, []).find_closure(int(it['closure']))
+                _fr = FnRewriter(sf, fn_item, fnkey, None, unit, [])
+                cs, cbo, ce = _fr.find_closure(_fr.closure_ordinal(it['closure']))
                 fn_item = ('fn', it['key'], cs, ce, cbo)
                 lifted = it['sig']
                 log.append({'rule': 'R7', 'fn': fnkey, 'line': sf.line_of(sf.toks[cs].start),
@@ -2428,7 +2466,7 @@ def build(unit_dir, repo, canary=False, auto_off=None):
                 log.append({'rule': 'R8a', 'fn': fnkey, 'line': sf.line_of(sf.toks[fn_item[2]].start),
                             'what': 'attribute %s placed on the extracted fn' % a})
             if 'closure' in it and 'as' in it:
-                fp = rw.emit_lifted(int(it['closure']), it['as'], it['sig'], it.get('subst', {}))
+                fp = rw.emit_lifted(rw.closure_ordinal(it['closure']), it['as'], it['sig'], it.get('subst', {}))
                 raw = sf.text(rw.lifted_span[0], rw.lifted_span[1])
                 fn_item = (fn_item[0], fn_item[1], rw.lifted_span[0], rw.lifted_span[1], fn_item[4])
             else:
